@@ -38,11 +38,38 @@ ILL = [
 
 
 def amp(bra, ket):
-    """log-amplification of the electron-transfer step when `ket` angular momentum is built from `bra`."""
+    """log-amplification of the electron-transfer step when `ket` angular momentum is built from `bra`
+    (exponent ratio only: the measure the library itself uses to choose the orientation)."""
     steps = ket[0]["l"] + ket[1]["l"]
     p = max(bra[0]["e"]) + max(bra[1]["e"])
     q = min(ket[0]["e"]) + min(ket[1]["e"])
     return steps * max(float(np.log(p / q)), 0.0)
+
+
+def amp_total(shells):
+    """Rounding-amplification exponent of the HGP scheme for a shell quartet, best orientation.
+
+    electron transfer: every unit of ket angular momentum multiplies intermediates by at most
+        [p_max + b_max |AB| + d_max |CD|] / q_min          (coefficients of the transfer recursion);
+    horizontal recursion: every unit moved to the second function of a pair multiplies by |AB| (|CD|), i.e. by
+        |AB| sqrt(p_max) in units of the pair's own length scale, and cancels.
+    Returns (A, A_transfer, A_horizontal) with A = min over the two orientations of A_transfer, plus A_horizontal.
+    Calibrated on 3471 random quartets: every deviation above 1e-6 had A >= 24.5 and all deviations obeyed
+    err <= 4e2 * eps * exp(A).
+    """
+    def pr(a, b):
+        return {"pmax": max(a["e"]) + max(b["e"]), "pmin": min(a["e"]) + min(b["e"]), "e2": max(b["e"]), "L": a["l"] + b["l"], "l2": b["l"],
+                "dist": float(np.linalg.norm(np.array(a["c"]) - np.array(b["c"])))}
+
+    bra, ket = pr(shells[0], shells[1]), pr(shells[2], shells[3])
+
+    def et(b, k):
+        g = (b["pmax"] + b["e2"] * b["dist"] + k["e2"] * k["dist"]) / k["pmin"]
+        return k["L"] * float(np.log(max(g, 1.0)))
+
+    hr = bra["l2"] * float(np.log(max(1.0, bra["dist"] * np.sqrt(bra["pmax"])))) + ket["l2"] * float(np.log(max(1.0, ket["dist"] * np.sqrt(ket["pmax"]))))
+    a_et = min(et(bra, ket), et(ket, bra))
+    return a_et + hr, a_et, hr
 
 
 def _mk(l, exps, rng, center):
@@ -135,7 +162,7 @@ def schwarz(ra, rb):
 FAR = 1e-9  # an element is "far-field" when its Schwarz scale is below FAR x the largest Schwarz scale of the array
 
 
-def judge_eri(out, ref, scale, what, qty, viols, errs, info):
+def judge_eri(out, ref, scale, what, qty, viols, errs, info, locate=None):
     """Elementwise |out-ref| <= 1e-6*schwarz. Elements whose Schwarz scale is below FAR of the array's largest are
     reported separately (qty + '_farfield') with the absolute error, so that the classifier can key them."""
     if isinstance(out, cm.Raised):
@@ -149,7 +176,7 @@ def judge_eri(out, ref, scale, what, qty, viols, errs, info):
     err = np.where(np.isnan(err), np.inf, err)
     smax = float(scale.max())
     rmax = float(np.abs(ref).max())
-    near = scale >= FAR * smax
+    near = scale >= FAR * max(smax, 1e-2)
     rel = err / scale
     for mask, q in ((near, qty), (~near, qty + "_farfield")):
         if not mask.any():
@@ -161,6 +188,14 @@ def judge_eri(out, ref, scale, what, qty, viols, errs, info):
         if q.endswith("_farfield"):
             errs[q + "_abs_over_max"] = max(errs.get(q + "_abs_over_max", 0.0), float(np.where(mask, err, 0.0).max()) / (rmax + 1e-300))
         if not e <= TOL:
+            info = dict(info)
+            if locate is not None:  # whole-basis array: amplification exponent of the shell quartet the element belongs to
+                offs, shells, notation = locate
+                idx = [cm.block_of(offs, int(x)) for x in at]
+                if notation == "physicist":
+                    idx = [idx[0], idx[2], idx[1], idx[3]]
+                info["quartet"] = idx
+                info["A_total"], info["A_transfer"], info["A_horizontal"] = amp_total([shells[k] for k in idx])
             viols.append(cm.viol("%s deviates from the reference by %.3e of the Schwarz scale (bound 1e-6) at %s: got %.6e, reference %.6e, Schwarz scale %.3e (largest in the array %.3e)" % (
                 what, min(e, 1e300), tuple(int(x) for x in at), float(np.asarray(out)[at]), float(ref[at]), float(scale[at]), smax),
                 q, min(e, 1e300), TOL, abs_err=float(err[at]), ref_max=rmax, schwarz=float(scale[at]), schwarz_max=smax, at=[int(x) for x in at], **info))
@@ -184,6 +219,7 @@ def run_case(case):
         evals += 1
         info["A_given"] = amp(shells[:2], shells[2:])
         info["A_swapped"] = amp(shells[2:], shells[:2])
+        info["A_total"], info["A_transfer"], info["A_horizontal"] = amp_total(shells)
         if isinstance(out, cm.Raised):
             viols.append(cm.unexpected(out, "ElectronRepulsionIntegral.construct_array_contraction", **info))
         else:
@@ -210,11 +246,12 @@ def run_case(case):
         dg = np.sqrt(np.abs(ref.reshape(n * n, n * n).diagonal()).reshape(n, n))
         scale = dg[:, :, None, None] * dg[None, None, :, :] + 1e-300
         chem = cm.call(electron_repulsion_integral, cm.build(shells), notation="chemist")
-        judge_eri(chem, ref, scale, "electron_repulsion_integral(notation='chemist')", "eri_chemist", viols, errs, info)
+        offs = gto.offsets(rs)
+        judge_eri(chem, ref, scale, "electron_repulsion_integral(notation='chemist')", "eri_chemist", viols, errs, info, locate=(offs, shells, "chemist"))
         phys = cm.call(electron_repulsion_integral, cm.build(shells), notation="physicist")
         dflt = cm.call(electron_repulsion_integral, cm.build(shells))
         evals += 3
-        judge_eri(phys, ref.transpose(0, 2, 1, 3), scale.transpose(0, 2, 1, 3), "electron_repulsion_integral(notation='physicist')", "eri_physicist", viols, errs, info)
+        judge_eri(phys, ref.transpose(0, 2, 1, 3), scale.transpose(0, 2, 1, 3), "electron_repulsion_integral(notation='physicist')", "eri_physicist", viols, errs, info, locate=(offs, shells, "physicist"))
         if isinstance(chem, np.ndarray) and isinstance(phys, np.ndarray):
             evals += 1
             if phys.shape != chem.transpose(0, 2, 1, 3).shape or not np.array_equal(phys, chem.transpose(0, 2, 1, 3)):
@@ -226,27 +263,30 @@ def run_case(case):
             "info": {k: v for k, v in info.items() if k != "ls"}}
 
 
-A0 = 8.0
+A0 = 22.0
+EPS = 1.1e-16
 
 
 def classify(case, v):
     """Mechanism keys.
 
-    C04/etransfer-amplification: the electron-transfer recursion amplifies rounding by (p/q) per unit of ket angular
-    momentum; accepted only when BOTH orientations have amplification exponent >= A0 and the error is small
-    (< 1e-4 of the Schwarz scale).
-    C04/far-field-cancellation: elements whose Schwarz scale is below 1e-9 of the array's largest (functions tens of
-    bohr apart) lose relative accuracy in the horizontal recursion (multiplication by the centre distance); accepted only
-    while the ABSOLUTE error stays below 1e-15 of the largest element of the array.
+    C04/recursion-amplification: rounding amplified by the electron-transfer and horizontal recursions (see
+    amp_total). Accepted only when the quartet's amplification exponent in its BEST orientation is >= A0 = 22 (every
+    deviation above 1e-6 seen in calibration had A >= 24.5), the deviation is within the envelope 1e4*eps*exp(A) the
+    mechanism can explain, and below 1e-3 of the Schwarz scale. Anything else is a VIOLATION.
+    C04/far-field-cancellation: elements whose Schwarz scale is below 1e-9 of the natural scale (functions tens of
+    bohr apart) lose relative accuracy; accepted only while the ABSOLUTE error stays below 1e-15 of the largest
+    element of the array.
     """
     q = v.get("qty", "")
     if q.endswith("_farfield"):
-        if v.get("abs_err") is not None and v["abs_err"] <= 1e-15 * v.get("ref_max", 0.0) and v.get("schwarz", 1.0) < FAR * v.get("schwarz_max", 0.0):
+        if v.get("abs_err") is not None and v["abs_err"] <= 1e-15 * max(v.get("ref_max", 0.0), 1e-2) and v.get("schwarz", 1.0) < FAR * max(v.get("schwarz_max", 0.0), 1e-2):
             return "C04/far-field-cancellation"
         return None
-    if q == "eri_kernel" and v.get("A_given") is not None:
-        if min(v["A_given"], v["A_swapped"]) >= A0 and v.get("err", 1.0) < 1e-4:
-            return "C04/etransfer-amplification"
+    A = v.get("A_total")
+    if q in ("eri_kernel", "eri_chemist", "eri_physicist") and A is not None:
+        if A >= A0 and v.get("err", 1.0) <= min(1e-3, 1e4 * EPS * float(np.exp(min(A, 60.0)))):
+            return "C04/recursion-amplification"
     return None
 
 
